@@ -536,3 +536,47 @@ def check_C05(ctx):
     for c in cases[:1] + cases[len(cases) // 2: len(cases) // 2 + 1] + cases[-1:]:
         ctx.sample({k: c[k] for k in ("id", "cfg", "verdict", "outcome", "events", "calls")})
     ctx.assumptions += ["wasmparser's validator under walrus's feature list defines validity; the space of byte strings is sampled"]
+
+
+def check_C09(ctx):
+    ctx.rule = ("design: Parallel.tla - 4 jobs, 3 workers, every interleaving of claim/finish, every assignment of {ok, errA, errB} to jobs: collected vector, first error in job order, "
+                "concatenation and `any` equal the serial ones (SameAsSerial), each job once, termination; implementation: the harness is built twice from the same tree (with and without "
+                "walrus's `parallel` feature); many-function modules (1..300 functions, equal and unequal sizes, a third with two corrupted bodies) are processed by the serial build and by the "
+                "parallel build under RAYON_NUM_THREADS in {1,2,3,4,8,16} x repetitions; TLC requires identical decisions, error messages and byte digests and that the observed job order "
+                "(hook events) is a schedule of the serial job list. A case is one input under all runs.")
+    q = ctx.quick()
+    model_check(ctx, "Parallel", cfg="MC_Parallel", workers=8, label="design-parallel")
+    build(parallel=True)
+    n = 40 if q else 600
+    inputs = "par:%d,fixtures,file:%s" % (n, DODRIO)
+    ser = os.path.join(ctx.work, "serial.ndjson")
+    wv(["par-digests", "inputs=" + inputs, "seed=%d" % ctx.seed, "out=" + ser])
+    serial = read_ndjson(ser)
+    runs = {}
+    reps = 1 if q else 4
+    threads = [1, 2, 3, 4, 8, 16]
+    for t in threads:
+        for rep in range(reps):
+            f = os.path.join(ctx.work, "par_t%d_r%d.ndjson" % (t, rep))
+            wv(["par-digests", "inputs=" + inputs, "seed=%d" % ctx.seed, "out=" + f], parallel=True, env={"RAYON_NUM_THREADS": str(t)})
+            for c in read_ndjson(f):
+                c["threads"] = t
+                c["hooks"] = True
+                runs.setdefault(c["id"], []).append({k: c[k] for k in ("threads", "hooks", "outcome", "digest", "parse_jobs", "emit_jobs", "threads_seen")})
+    trace = os.path.join(ctx.work, "parallel.ndjson")
+    with open(trace, "w") as out:
+        for c in serial:
+            out.write(json.dumps({"id": c["id"], "source": c["source"], "serial": {k: c[k] for k in ("outcome", "digest", "parse_jobs", "emit_jobs")}, "runs": runs.get(c["id"], [])}) + "\n")
+    r, cases = judge_trace(ctx, "Trace_Parallel", trace, slim=lambda c: {"id": c["id"], "source": c["source"]})
+    orders = set()
+    for c in cases:
+        for rr in c["runs"]:
+            if len(rr["parse_jobs"]) > 1:
+                orders.add((c["id"], tuple(rr["parse_jobs"])))
+    ctx.notes["parallel_runs_per_input"] = len(threads) * reps
+    ctx.notes["distinct_job_orders_observed"] = len(orders)
+    ctx.notes["max_threads_seen_in_one_run"] = max((rr["threads_seen"] for c in cases for rr in c["runs"]), default=0)
+    ctx.notes["rejected_inputs"] = sum(1 for c in cases if c["serial"]["outcome"] != "ok")
+    for c in cases[:1] + cases[-1:]:
+        ctx.sample({"id": c["id"], "serial_outcome": c["serial"]["outcome"][:80], "serial_jobs": c["serial"]["parse_jobs"][:10], "a_parallel_order": c["runs"][-1]["parse_jobs"][:10] if c["runs"] else []})
+    ctx.assumptions += ["schedules of the real thread pool are sampled by thread count and repetition; exhaustiveness is on the model side only"]
